@@ -47,7 +47,8 @@ ASSUMPTIONS = [
     "Expr(...)/copy/expand/doit/factor (value preserving), subs/permute (index replacement), Term.symmetry, evaluate_deltas, "
     "KroneckerDelta, order_substitutions, find_compatible_terms, find_compatible_denom, minimize_tensor_indices, "
     "Intermediates/expand_itmd, _validate_num/_validate_denom",
-    "aliasing is modelled only for Expr.subs/permute (in place); in-place arithmetic on Expr is treated as producing a new value",
+    "aliasing: Expr.subs/permute/expand and augmented assignments on an Expr work in place (as in the library), every other "
+    "operation produces a new container; aliasing through containers the model does not see is not decided",
     "cancel_orb_energy_frac, permute_num and find_compatible_denom are algorithms: only the value of their result (and the listed "
     "argument forwarding) is decided, not how far they cancel / which permutations they find",
     "Term.split_orb_energy is decided for terms whose non-orbital-energy objects have positive exponents (a tensor in the "
@@ -456,6 +457,9 @@ def r13h(ctx):
                    f"{what}: {pref} * [{fmt(norm(num))}] / [{fmt(norm(den))}] is decomposed into terms of a different value: the "
                    "running prefactor, the bracket that is removed and the numerator that is left do not fit together",
                    key=f"{name} value")
+            vcheck(ctx, rule, fn, eo_value(st["me"]), st["val"], f"{what}: the instance keeps its value (only signs are canonicalised)",
+                   f"{what}: the instance is modified while cancelling (pref={st['me'].attrs['_pref']}, num={fmt(st['me'].attrs['_num'])}, "
+                   f"denom={fmt(st['me'].attrs['_denom'])})", key=f"{name} instance")
 
 
 # ------------------------------------------------------------------------------------------------ R13b
